@@ -118,6 +118,9 @@ func isParamField(field string) func(ssa.Value) bool {
 }
 
 func runC18(c *core.Ctx) {
+	// a witness check passes only for an address that signed: for a multi-signature address that rests on
+	// VerifyMultiSignature counting m DISTINCT keys (C14/C39's rule)
+	checkVerifyMultiSignature(c, "C18.multisig-internals")
 	vo := eng.Obj(c, pkUtils, "ValidateOwner")
 	gco := eng.Obj(c, pkNM, "GetCurConOperator")
 	if vo == nil || gco == nil {
